@@ -143,7 +143,11 @@ def _arm_watchdog():
 
 
 def _disarm_watchdog():
-    signal.setitimer(signal.ITIMER_REAL, 0, 0)
+    try:
+        signal.setitimer(signal.ITIMER_REAL, 0, 0)
+        signal.signal(signal.SIGALRM, signal.SIG_IGN)
+    except Exception:
+        pass
     _WD['armed'] = None
 
 
@@ -398,6 +402,7 @@ def main(pid, tier, vseed, replay=None):
     try:
         return _main(pid, tier, vseed, replay)
     finally:
+        _disarm_watchdog()      # a tick during interpreter shutdown (handlers already reset) would kill the process with SIGALRM
         shutil.rmtree(os.environ['PV_TMP'], ignore_errors=True)
 
 
